@@ -85,7 +85,89 @@ def pair_st(draw, tier):
     return {"top": top, "bottom": bottom, "platform": platform}
 
 
-SUBS = [Sub("pairs", judge, strategy=pair_st, quick=12000, thorough=200000, shards_thorough=64)]
+# --------------------------------------------------------------------------------------- member edits
+def judge_edit(case) -> Verdict:
+    """Ask, edit the attached member list of a group address IN PLACE, ask again: the second answer must be
+    sound for the CURRENT members (no result may survive from before the edit)."""
+    top, bottom, platform = dict(case["top"]), dict(case["bottom"]), case["platform"]
+    if platform not in ("ios", "nxos"):
+        raise Invalid()
+    G.validate_rec(top, platform)
+    G.validate_rec(bottom, platform)
+    t = A.build_ace(top, platform)
+    b = A.build_ace(bottom, platform)
+    v = Verdict()
+    skip = A.SKIPS[case.get("skip", 0) % len(A.SKIPS)]
+    first = b.shadow_of(t, skip=skip)
+    edited = 0
+    for which, side, how, arg in case["edits"]:
+        rec, ace = (top, t) if which == "top" else (bottom, b)
+        a = rec["src" if side == "src" else "dst"]
+        addr = ace.srcaddr if side == "src" else ace.dstaddr
+        if a["k"] != "group":
+            continue
+        mem = [list(m) for m in a.get("m") or []]
+        if how == "append":
+            new = [arg[0] & ~arg[1] & R.ALL1, arg[1]]
+            if len(R.nc_bits(new[1])) > 3:
+                raise Invalid()
+            addr.items.append(type(addr)(f"{R.int2ip(new[0])} {R.int2ip(new[1])}", platform=platform))
+            mem.append(new)
+        elif how == "pop" and mem:
+            addr.items.pop()
+            mem.pop()
+        elif how == "line" and mem:
+            new = [arg[0] & ~arg[1] & R.ALL1, arg[1]]
+            if len(R.nc_bits(new[1])) > 3:
+                raise Invalid()
+            addr.items[0].line = f"{R.int2ip(new[0])} {R.int2ip(new[1])}"
+            mem[0] = new
+        else:
+            continue
+        edited += 1
+        rec["src" if side == "src" else "dst"] = dict(a, m=mem)
+    second = b.shadow_of(t, skip=skip)
+    rt, rb = G.rec_rule(top), G.rec_rule(bottom)
+    ok = top["action"] == bottom["action"] and R.rule_subset(rb, rt)
+    if second is True and not ok:
+        v.fail("unsound-after-member-edit", {"top": t.line, "bottom": b.line, "skip": skip, "first_answer": first,
+                                             "top_src_members": [x.line for x in t.srcaddr.items],
+                                             "bottom_src_members": [x.line for x in b.srcaddr.items],
+                                             "top_dst_members": [x.line for x in t.dstaddr.items],
+                                             "bottom_dst_members": [x.line for x in b.dstaddr.items]})
+    fresh = A.build_ace(bottom, platform).shadow_of(A.build_ace(top, platform), skip=skip)
+    if fresh != second:
+        v.fail("answer-depends-on-earlier-query", {"top": t.line, "bottom": b.line, "skip": skip, "after_edit": second,
+                                                   "fresh_objects": fresh})
+    v.nt(edited > 0 and (first is True or second is True))
+    v.label("edited" if edited else "no-edit", "first-true" if first else "first-false")
+    return v
+
+
+@st.composite
+def edit_st(draw, tier):
+    platform = draw(st.sampled_from(["ios", "nxos"]))
+    grp = G.addr_st(kmax=2, groups=True, kinds=["group"])
+    top = draw(G.ace_st(platform, kmax=2, groups=True, members=True, seq=False, noise=False, protos=st.sampled_from([0, 0, 6])))
+    if not G.rec_has_group(top) or draw(st.booleans()):
+        top[draw(st.sampled_from(["src", "dst"]))] = draw(grp)
+    bottom = draw(G.mutate_ace(top, platform, kmax=2, groups=True))
+    for side in ("src", "dst"):
+        if top[side]["k"] == "group" and draw(st.booleans()):
+            bottom[side] = dict(top[side], m=[list(m) for m in top[side]["m"]][: draw(st.integers(1, 4))])
+    bottom["action"] = top["action"]
+    edits = []
+    for _ in range(draw(st.integers(1, 3))):
+        w = draw(G.wildmask_st(2))
+        edits.append([draw(st.sampled_from(["top", "bottom", "bottom"])), draw(st.sampled_from(["src", "dst"])),
+                      draw(st.sampled_from(["append", "append", "pop", "line"])), [draw(G.base_st()), w]])
+    return {"top": top, "bottom": bottom, "platform": platform, "edits": edits, "skip": draw(st.integers(0, 4))}
+
+
+SUBS = [
+    Sub("pairs", judge, strategy=pair_st, quick=12000, thorough=200000, shards_thorough=64),
+    Sub("member-edit", judge_edit, strategy=edit_st, quick=2500, thorough=60000),
+]
 
 MANIFEST = {
     "technique": "property-based testing with a derived-pair generator: Ace.shadow_of answers checked against exact packet-set inclusion computed by an independent reference (refsem), plus a metamorphic monotonicity relation over skip options",
